@@ -151,10 +151,12 @@ META = {
         text=("Lean 4 theorems on the runtime model Rt: any sequence of dispatch_n_events / dispatch_events_until steps followed by dispatch_all to completion yields exactly the observations of one "
               "uninterrupted dispatch_all, for every program, (n,t), start time and cut incl. cuts inside a tie group (C10.stepped_eq_run, via: every limited run is a prefix of the unlimited run ending in "
               "exactly one of its states, and unlimited runs compose); dispatch_n_events dispatches exactly the next n events or all (dispatchN_exact, step_stops_at_bound), dispatch_events_until exactly the "
-              "events up to the first later than t (dispatchUntil_exact); a paused runtime reports the last dispatched time and the number of pending events, and accepts exactly the adds at/after that time."),
+              "events up to the first later than t (dispatchUntil_exact), i.e. exactly those with timestamp <= t, and both on the calendar-queue runtime from the paused state of any session "
+              "(dispatchN_exactly_next_k, dispatchUntil_exactly_events_le); from every paused state any session reaches (cuts, external adds, further cuts) further steps followed by dispatch_all equal one "
+              "uninterrupted dispatch_all from that state, incl. the final paused report (stepped_eq_run_from_any_pause); a paused runtime reports the last dispatched time and the number of pending events, and accepts exactly the adds at/after that time."),
         design_ref="DESIGN.md §5 C10",
-        note=("Trusted: as C02. Model mirrors /repo after the F9/F10 repair (next_time peek instead of fetch + re-insert). Sessions with external adds between steps are covered by the tie and by "
-              "paused_add_ge_now_accepted, not by stepped_eq_run (a different history than the uninterrupted run)."),
+        note=("Trusted: as C02. Model mirrors /repo after the F9/F10 repair (next_time peek instead of fetch + re-insert). Sessions with external adds between steps are covered by "
+              "stepped_eq_run_from_any_pause (stepping = running from the paused state the adds were made in), paused_add_ge_now_accepted and the tie."),
         technique=_T),
     "C11": dict(
         text=("Lean 4 theorems on the runtime model Rt: the events dispatched under a limit L are exactly the longest prefix of the unlimited run's events that L admits (C11.limited_handled_eq_admitted_prefix, "
